@@ -523,6 +523,40 @@ def end_classification(ctx, prog):
             ctx.ob(R, "parse_block_hash_from_bytes: OverflowError is reported exactly when %s" % what, ok, "consumed %s; conditions %s" % (consumed, shown), f.loc(s["sp"]))
 
 
+def capacity_after_collapse(ctx, prog):
+    """default parser: the capacity test belongs to the store - it is evaluated only for a symbol that is going to be stored,
+    i.e. after the run-collapsing decision; a collapsed repeat needs no room and must not be refused"""
+    from ..sym import const_named
+    R = "SA-GUARD"
+    f = prog.fn("hash::algorithms::parse_block_hash_from_bytes")
+    sy = Sym(f)
+    if any(callee_of(t).endswith("Iterator::take") for i, t in f.calls()):
+        return  # strict parser: capacity is enforced by take(N) on the raw text
+    ctx.visit(f)
+    caps = []
+    runs = []
+    for i, j, s in f.stmts():
+        if s["s"] == "assign" and s["rv"]["r"] == "bin" and s["rv"]["op"] in ("Ge", "Gt", "Lt", "Le", "Eq", "Ne"):
+            a, b = strip(sy.operand(s["rv"]["a"])), strip(sy.operand(s["rv"]["b"]))
+            if (s["rv"]["op"] == "Ge" and canon(b) == "N") or (s["rv"]["op"] == "Le" and canon(a) == "N"):
+                caps.append(i)   # (the bounds check of the store itself is `index < N` on an Assert edge, not a refusal)
+            if const_named(a, "block_hash::MAX_SEQUENCE_SIZE") or const_named(b, "block_hash::MAX_SEQUENCE_SIZE"):
+                runs.append(i)
+    hdr = [i for i, t in f.calls() if callee_of(t).endswith("::next")]
+    ok = len(caps) == 1 and len(runs) >= 1 and len(hdr) >= 1
+    why = "capacity tests at bb%s, run-limit tests at bb%s" % (caps, runs)
+    if ok:
+        reach = f.reach_from(caps[0], avoid=set(hdr))
+        late = sorted(set(runs) & (reach - {caps[0]}))
+        # run-limit tests after the loop (final report of a pending run) are outside the iteration: only those that can
+        # still lead back to the loop header count
+        late = [b for b in late if any(h in f.reach_from(b) for h in hdr)]
+        ok = not late
+        if late:
+            why = "the run-collapsing decision (bb%s) is still ahead when the capacity is tested (bb%d): a repeat that would be collapsed can be refused as overflow" % (late, caps[0])
+    ctx.ob(R, "parse_block_hash_from_bytes: the capacity test is evaluated after the run-collapsing decision (only a symbol about to be stored can overflow)", ok, why, f.loc())
+
+
 def driver_outcomes(ctx, prog):
     """the parse driver (template expansion): which stop state of which field leads to which outcome, with which position"""
     R = "SA-GUARD"
